@@ -686,6 +686,41 @@ theorem readBack_of_inDomain (fs : List Field) (vs : List Val) (h : inDomain fs 
   have hw : writePos fs vs = .ok (out ++ ['\n']) := by simp [writePos, hout, Except.map]
   exact ⟨_, hw, readBack_canon fs vs _ hlen hD hlaw hw⟩
 
+/-- **C01 in full, from the decidable domain, for every layout without non-missing
+floats**: the write/read/re-write cycle of the model satisfies the whole of
+`Spec.C01.holds` — the values read back are the canonical forms and the
+re-written text is identical to the written one.  (Non-missing floats: the
+read-back clause is `readBack_of_inDomain`; their stability and accuracy
+clauses are checked per case.) -/
+theorem main_nofloat (fs : List Field) (vs : List Val) (h : inDomain fs vs = true)
+    (hdate : ∀ fv ∈ fs.zip vs, ∀ fmts, fv.1.kind = .date fmts → fv.2.isNull = true → ∀ fm ∈ fmts, fm ≠ [])
+    (hbig : ∀ v ∈ vs, ∀ n, v = .int n → n.natAbs < 10 ^ 4300)
+    (hflt : ∀ fv ∈ fs.zip vs, ∀ dec fmt sep, fv.1.kind = .flt dec fmt sep → fv.2.isNull = true) :
+    ∃ o, cycle fs vs = some o ∧ holds fs vs o = true := by
+  obtain ⟨w, hw, hread⟩ := readBack_of_inDomain fs vs h hdate hbig
+  simp only [inDomain, Bool.and_eq_true, beq_iff_eq, List.all_eq_true] at h
+  obtain ⟨⟨hlen, hdis⟩, hdom⟩ := h
+  have hD := Disjoint_of_bool' fs hdis
+  have hlaw : ∀ fv ∈ fs.zip vs, RenderLaw fv.1 fv.2 := by
+    intro fv hfv
+    have hm := List.of_mem_zip hfv
+    exact renderLaw_of_domain fv.1 fv.2 (hdom fv hfv) (hdate fv hfv) (hbig fv.2 hm.2) (hflt fv hfv)
+  have hst := line_stable fs vs w hlen hD hlaw hw
+  refine ⟨⟨w, readPos fs w, w⟩, by simp [cycle, hw, hst], ?_⟩
+  simp only [holds, beq_self_eq_true, Bool.true_and, Bool.and_eq_true, beq_iff_eq, List.all_eq_true]
+  refine ⟨?_, ?_⟩
+  · rw [hread]
+  · intro fv hfv
+    have hnull := hflt fv hfv
+    simp only [floatClauses]
+    split
+    · rename_i dec fmt sep x hk hv
+      have := hnull dec fmt sep hk
+      rw [hv] at this
+      simp only [Val.isNull] at this
+      simp [this]
+    · rfl
+
 /-- non-vacuity of the laws: a concrete layout with gaps, in reversed order -/
 example :
     let fs := [Field.mk' .lit 4 8, Field.mk' .int 5 1]
